@@ -180,7 +180,10 @@ func (e *Enc) nextInstr(fr *Frame, st *State, in *ssa.Next) {
 	inDom := And(Not(Eq(m, IntLit(0))), Select(dom, k))
 	e.assume(st, Implies(ok, And(inDom, Not(Select(visited, k)))))
 	kk := Val{"k!", ks}
-	e.assume(st, Implies(Not(ok), Forall([]Val{kk}, Implies(And(Not(Eq(m, IntLit(0))), Select(dom, kk)), Select(visited, kk)))))
+	if !e.iterUnstable[rng] {
+		// (an entry added during the iteration may or may not be produced: no such claim then)
+		e.assume(st, Implies(Not(ok), Forall([]Val{kk}, Implies(And(Not(Eq(m, IntLit(0))), Select(dom, kk)), Select(visited, kk)))))
+	}
 	v := e.name("nxv", Select(Select(vh, m), k))
 	e.assumeValid(st, k, mt.Key())
 	e.assumeValid(st, v, mt.Elem())
@@ -190,8 +193,10 @@ func (e *Enc) nextInstr(fr *Frame, st *State, in *ssa.Next) {
 	if !haveN {
 		cnt = e.fresh("itn", BVSort(64))
 	}
-	e.assume(st, Implies(Not(ok), Eq(cnt, e.mapLen(st, m))))
-	e.assume(st, Implies(ok, BVCmp("bvslt", cnt, e.mapLen(st, m))))
+	if !e.iterUnstable[rng] {
+		e.assume(st, Implies(Not(ok), Eq(cnt, e.mapLen(st, m))))
+		e.assume(st, Implies(ok, BVCmp("bvslt", cnt, e.mapLen(st, m))))
+	}
 	if st.iterN == nil {
 		st.iterN = map[ssa.Value]Val{}
 	}
